@@ -49,6 +49,11 @@ CHECKS = {
     technique="TLA+ handshake model: action properties 'ClientHello leaves the tables unchanged' and 'a hidden server emits only for a fresh valid hidden request', cookie validity (current key, same address, same client key) as the guard of state allocation, checked by TLC; behaviours with re-addressing, rotation, replays, splices and clock ticks replayed on real servers with table sizes and emitted datagrams compared after every step; mass-hello / cookie mis-binding / hidden-probe traces judged by TLC",
     text="TLC checks C19Stateless and C19HiddenSilent on all families (single and two concurrent sessions, up to 2 adversary moves). In the replay, after each step the dialled real server's table sizes (handshakes + sessions) and its total number of emitted datagrams are compared with the model's: state appearing at a ClientHello step, state allocated at a ClientAck step where the model's cookie guard fails (other IP, other port, other client key via splice, rotated key, tampered cookie), or any datagram from a hidden-mode server that the model does not emit (discoverable messages, wrong KEM key, stale by 7.1 s, replayed late, tampered, truncated) is a violation. A driver sends 2,000 (thorough 100,000) hellos from distinct addresses, each cookie mis-binding class, and 160+ probe datagrams of every type and length class to a hidden server.",
     note="Trusted: TLC, simwire, the verif-tag table view and rotation step. The 2-minute rotation ticker itself is not exercised, only the rotation step."),
+ "C10": dict(
+    level="fault_enumeration", ref="§3 C10",
+    technique="TLA+ enumeration of the configuration x endpoint-state x junk-class product with the no-effect postcondition (HopJunk.tla, states named after HopHandshake/HopTransport); every edge executed on real endpoints in child processes with concrete datagrams (all truncation lengths, field mutations, declared-length values, typed random bodies with and without the live session id); liveness probes recorded and judged by TLC",
+    text="TLC enumerates 334 (configuration, state, derivation, base message) edges over 4 server configurations (one certificate; three virtual hosts with literal/wildcard/catch-all patterns resolved through hopserver.VirtualHosts.Match; hidden with one and with three certificates) and 8 endpoint states (server idle / handshake pending / established / session closed; client waiting for ServerHello / ServerAuth / hidden response / open). A driver reaches each state with real endpoints, captures genuine messages from the same server, and delivers ~93k datagrams per run (every truncation length of every genuine message, per-field byte flips, every interesting declared length, extension, 21 type bytes x 20 lengths of random bodies with and without the live session id, 0-3 byte datagrams) from the address owning the state and from a foreign address; after every 40 datagrams an honest handshake from a fresh address (rotating over the virtual hosts) and a two-way message on the established session must succeed. Each group is a child process; a crash is attributed to the datagram flushed to the log before delivery. The check fails (exit 2) if any spec edge was not executed.",
+    note="fault_enumeration: inside a class bytes are enumerated by truncation/mutation or sampled by seed - it is not a coverage-guided fuzzer. A handshake in progress from the same source address may be lost (allowed by the specification). Trusted: simwire, the child-process attribution."),
 }
 
 NOT_YET = {}
